@@ -223,6 +223,12 @@ CaseMatrix == LET it == ItemsOfCase
                   A |-> [a \in 1..k |-> [b \in 1..n |-> IF nE <= nS THEN W(a, b) ELSE W(b, a)]],
                   Wi |-> [i \in 1..nE |-> [j \in 1..nS |-> W(i, j)]]]
 LawOptimum == IsCase /\ Part \in {"formula", "dual"} => LET m == CaseMatrix IN OptimumLaw(m.A, m.k, m.n)
+\* the row-by-row construction of the assignments is the set of all injections
+ASSUME \A k \in 0..4, n \in 0..5 : k <= n => InjectionsLaw(k, n)
+\* maximising credit over one-to-one assignments = minimising cost on the zero-padded square (what the solver sees)
+LawPaddedCost == IsCase /\ Part \in {"formula", "dual"} =>
+                   LET m == CaseMatrix IN
+                   m.n <= 4 => PaddedMinCost(m.Wi, m.nE, m.nS, 2) = m.n * 2 - BestTotal(m.A, m.k, m.n)
 \* text layer
 LawSplit == IsCase /\ Part = "text" => SplitLaw(c.text, P0.g.delim)
 \* answers given as text are the split text
